@@ -148,7 +148,7 @@ class Recorder(object):
         if extra:
             line.update(extra)
         if ev['k'] == 'data':
-            line['hex'] = ev['hex']
+            line['hex'] = ev['hex'] if len(ev['hex']) <= 20000 else ev['hex'][:200] + '...(%d octets)' % (len(ev['hex']) // 2)
         self.lines.append(line)
         self.pre = post
         return o
